@@ -64,8 +64,10 @@ def oracle(t, with_mut):
     return s
 
 
-def emit(modname, cfgid, kind, vspecs, with_mut, sp=None, pre='', t_override=None):
+def emit(modname, cfgid, kind, vspecs, with_mut, sp=None, pre='', t_override=None, xf=None):
     t = t_override or build(kind, vspecs, with_mut)
+    if xf:
+        xf(t)
     body = pre + render_type(t, sp) + any_fn(t) + variant_index_fn(t) + oracle(t, with_mut)
     h1 = Harness('h_deref', covers=['reached'])
     body += h1.attrs() + '''pub fn h_deref() {
